@@ -1,12 +1,61 @@
 """C20 - wrapper strategies are transparent to the strategy they wrap."""
 import ast
 
-from ..astutil import FuncTree, dominates
+from ..astutil import FuncTree, dominates, inline_temporaries
 from ..common import norm_stmt, site_id
 from ..deps import names_in, base_name, index_names, dep_edges, closure, forward_closure
 from ..index import AnalysisError
 from ..paths import DefiniteAssignment
 from . import c01, c02
+
+
+def _subst_target(target, elt):
+    """Text of `elt` with the loop target replaced by $o / $o[i]."""
+    m = {}
+    if isinstance(target, ast.Name):
+        m[target.id] = "$o"
+    elif isinstance(target, (ast.Tuple, ast.List)):
+        for i, e in enumerate(target.elts):
+            if isinstance(e, ast.Name):
+                m[e.id] = f"$o[{i}]"
+
+    class R(ast.NodeTransformer):
+        def visit_Name(self, n):
+            if n.id in m:
+                return ast.Name(id=m[n.id], ctx=n.ctx)
+            return n
+    import copy
+    return ast.unparse(R().visit(copy.deepcopy(elt))).replace(" ", "")
+
+
+def collected_elements(fnode, lst):
+    """How the elements of the list expression `lst` are produced:
+    [(element text in terms of $o, iterated expression, conditional?)] for a
+    comprehension, or for a list name filled by `.append` in a for loop."""
+    if isinstance(lst, (ast.ListComp, ast.GeneratorExp)) and len(lst.generators) == 1:
+        g = lst.generators[0]
+        return [(_subst_target(g.target, lst.elt), g.iter, bool(g.ifs))]
+    out = []
+    if isinstance(lst, ast.Name):
+        for L in ast.walk(fnode):
+            if not isinstance(L, ast.For):
+                continue
+            for n in ast.walk(L):
+                if isinstance(n, ast.Expr) and isinstance(n.value, ast.Call) and isinstance(n.value.func, ast.Attribute) \
+                        and n.value.func.attr == "append" and isinstance(n.value.func.value, ast.Name) \
+                        and n.value.func.value.id == lst.id and n.value.args:
+                    cond = n not in L.body or any(isinstance(x, (ast.Break, ast.Continue)) for x in ast.walk(L))
+                    out.append((_subst_target(L.target, n.value.args[0]), L.iter, cond))
+    return out
+
+
+def _ordered_iter(it):
+    """the iterated expression yields the outputs in their own order"""
+    if isinstance(it, ast.Name):
+        return True
+    if isinstance(it, ast.Call):
+        return c01.callname(it) not in ("reversed", "sorted", "permutation", "shuffle", "set", "zip", "enumerate")
+    return False
 
 
 def kwmap(call):
@@ -41,14 +90,13 @@ def run(p, report, tier):
     # chunking of X_cand in order + concatenation taking [1][0]
     split = [n for n in ast.walk(pw.node) if isinstance(n, ast.Call) and c01.callname(n) == "array_split"]
     ok_split = bool(split) and all(n.args and isinstance(n.args[0], ast.Name) for n in split)
-    conc = [n for n in ast.walk(pw.node) if isinstance(n, ast.Call) and c01.callname(n) == "concatenate"]
+    pwi = inline_temporaries(pw.node)
+    conc = [n for n in ast.walk(pwi) if isinstance(n, ast.Call) and c01.callname(n) == "concatenate"]
     ok_conc = False
     if conc:
         a0 = conc[0].args[0] if conc[0].args else None
-        if isinstance(a0, ast.ListComp) and len(a0.generators) == 1 and not a0.generators[0].ifs:
-            elt = ast.unparse(a0.elt).replace(" ", "")
-            tv = ast.unparse(a0.generators[0].target)
-            ok_conc = elt == f"{tv}[1][0]" and isinstance(a0.generators[0].iter, ast.Name)
+        coll = collected_elements(pwi, a0)
+        ok_conc = bool(coll) and all(elt == "$o[1][0]" and _ordered_iter(it) and not cond for elt, it, cond in coll)
         axis0 = any(k.arg == "axis" and isinstance(k.value, ast.Constant) and k.value.value == 0 for k in conc[0].keywords)
         ok_conc = ok_conc and axis0
     report.add("R20.1", ent, "chunks of the candidates in order; outputs concatenated as output[1][0]", f"{pw.file}:{pw.node.lineno}",
